@@ -250,6 +250,13 @@ class SymMixin:
         return False
 
     def sym_isinstance(self, v: Sym, cls, run, node):
+        if v.info.get("one_of"):
+            res = {self.isinstance_(c, cls, run, node) for c in v.info["one_of"]}
+            if res == {True}:
+                return True
+            if res == {False}:
+                return False
+            return Sym(("isinstance", v.term, kterm(cls)), "bool")
         t = self.vtype(v, run)
         if t is not None and not isinstance(t, OpaqueV):
             alts = self.alts(t)
@@ -534,6 +541,8 @@ class SymMixin:
         """d[k] / d.get(k, default) with a symbolic key over a concrete dict: one arm per key + miss."""
         if d.may:
             self.limit("symbolic lookup in a weakly updated dict", node)
+        if len(d.d) > 8:
+            return self.one_of_lookup([d], k, run, node, default)
         run.emit("switch", k.term, tuple(kterm(x) for x in d.d), self.site(node), "get" if default is not None else "subscript")
         for key, val in d.d.items():
             r = self.sym_compare("eq", k, key, run, node)
@@ -542,6 +551,31 @@ class SymMixin:
         if default is not None:
             return default[0]
         run.emit("raise-site", "KeyError", self.site(node), "lookup keyed by a run-time value has no arm for a miss")
+        self.throw("KeyError", f"{k!r}", node)
+
+    def one_of_sym(self, term, values):
+        kinds = {"str" if isinstance(v, str) else "int" if isinstance(v, int) and not isinstance(v, bool) else "any" for v in values}
+        return Sym(term, kinds.pop() if len(kinds) == 1 else "any", one_of=list(values))
+
+    def one_of_lookup(self, dicts, k, run, node, default=None):
+        """Lookup with a run-time key in one of several large concrete dicts: hit (some value) or miss."""
+        dterm = tuple(sorted(d.uid for d in dicts))
+        kt = kterm(k)
+        # a concrete key decides the lookup per candidate dict
+        if not isinstance(k, Sym):
+            hits = [d.d[k] for d in dicts if k in d.d]
+            if len(hits) == len(dicts):
+                return self.one_of_sym(("dict-value", dterm, kt), hits)
+            if hits:
+                if run.decide(("haskey", dterm, kt), self.site(node)):
+                    return self.one_of_sym(("dict-value", dterm, kt), hits)
+        else:
+            values = [v for d in dicts for v in d.d.values()]
+            if values and run.decide(("haskey", dterm, kt), self.site(node)):
+                return self.one_of_sym(("dict-value", dterm, kt), values)
+        if default is not None:
+            return default[0]
+        run.emit("raise-site", "KeyError", self.site(node), "lookup keyed by a run-time value")
         self.throw("KeyError", f"{k!r}", node)
 
     # ------------------------------------------------------------------ sequences
@@ -580,6 +614,8 @@ class SymMixin:
         self.limit(f"unpack of symbolic {k}", node)
 
     def sym_getitem(self, o, k, run, node):
+        if isinstance(o, Sym) and o.info.get("one_of") and all(isinstance(x, DictV) for x in o.info["one_of"]):
+            return self.one_of_lookup(o.info["one_of"], k, run, node)
         if isinstance(o, Sym):
             kind = self.kind_of(o, run)
             if kind == "tuple":
@@ -789,6 +825,18 @@ class SymMixin:
         """Method `name` on receiver o (symbolic, or concrete with symbolic args)."""
         if isinstance(o, _dt.timezone) and name in ("utcoffset", "dst", "tzname"):
             return getattr(o, name)(None)  # a fixed-offset timezone ignores its argument
+        if isinstance(o, Sym) and o.info.get("one_of") and is_concrete(tuple(a)) and is_concrete(tuple(kw.values())):
+            cands = o.info["one_of"]
+            if all(isinstance(c, (str, bytes, int)) for c in cands):
+                try:
+                    res = [getattr(c, name)(*a, **kw) for c in cands]
+                except Exception as e:
+                    self.limit(f"method {name} on candidate values raises {e!r}", node)
+                res = [ListV(r) if isinstance(r, list) else r for r in res]
+                if all(isinstance(r, ListV) for r in res) and len({len(r.items) for r in res}) == 1:
+                    n = len(res[0].items)
+                    return ListV([self.one_of_sym((name, kterm(o), i), [r.items[i] for r in res]) for i in range(n)])
+                return self.one_of_sym((name, kterm(o)), res)
         k = self.kind_of(o, run) if isinstance(o, Sym) else {
             bytes: "bytes", str: "str", int: "int", float: "float", _dt.datetime: "datetime", _dt.timedelta: "timedelta",
             _uuid.UUID: "uuid", tuple: "tuple"}.get(type(o), "any")
@@ -949,6 +997,12 @@ class SymMixin:
         if name == "dataclasses.fields":
             self.limit("fields() of a symbolic value", node)
         if name == "pkgutil.resolve_name":
+            cands = a[0].info.get("one_of") if isinstance(a[0], Sym) else None
+            if cands and all(isinstance(c, str) for c in cands):
+                out = []
+                for c in dict.fromkeys(cands):
+                    out.append(self.call_lib(name, [c], {}, run, node))  # raises if one candidate does not resolve
+                return self.one_of_sym(("resolve_name", ta), out)
             run.emit("may-raise", "ImportError", site, "resolve_name of a run-time string")
             return Sym(("resolve_name", ta), "any")
         if name == "isinstance":
